@@ -603,8 +603,17 @@ class Parser:
                 # `#[cfg(feature = "verif")] stmt;` — a verification hook: dropped
                 line = self.t.line
                 self.i += 9
-                self.expr()
-                self.eat(";")
+                if self.at_id("let"):
+                    self.i += 1
+                    self.pattern()
+                    if self.eat(":"):
+                        self.ty()
+                    if self.eat("="):
+                        self.expr()
+                    self.expect(";")
+                else:
+                    self.expr()
+                    self.eat(";")
                 self.dropped.append(f"#[cfg(feature = \"verif\")] statement (line {line})")
                 continue
             if self.at("#") and self.peek().v == "[" and self.toks[self.i + 2].v == "cfg":
